@@ -7,6 +7,12 @@ CLAIMED = {
  "C01": ("exploration", "runtime witness checker on every Match result (independent containment checker)",
          "Every binding set returned by match.Match on ~4e5 (quick) / 1.2e7 (thorough) generated pattern/message/bindings triples is verified by an independent checker (extends given bindings, binds only pattern variables, substituted pattern contained in the message). Held-on-observed, not a proof; input-quantified property so bounded random exploration with constructive feature buckets is the reachable level for a monitor.",
          "Trusts the ~300-line checker ref/fits.go and the generator staying inside the supported fragment; sizes bounded (depth<=5, width<=4).", "DESIGN.md §4 C01"),
+ "C02": ("exploration", "planted-witness monitor + brute-force embedding differential + exhaustive small space, observed on the real matcher",
+         "The planted assignment must be among Match's results for ~3e5/6e6 planted and inflated messages; for plain once-only variables the result set must equal a brute-force enumeration of embeddings; all supported pattern/message pairs over alphabet {a,b}, variables {?x,?y} up to the node bounds are enumerated completely (that sub-space only is exhaustive). Bounded exploration otherwise.",
+         "Trusts ref/fits.go (checker) and the brute-force candidate set (sub-terms / property names of the message); side conditions of the property (sets, scalar repeated variables) are enforced by the generator.", "DESIGN.md §4 C02"),
+ "C03": ("exploration", "repetition/permutation differential + before/after snapshots + Go race detector on a shared pattern",
+         "Each of 3e4/4e5 cases is evaluated 48/192 times with maps rebuilt in different insertion orders (all permutations of small top-level pattern maps); outcome multisets must coincide, inputs must equal their snapshots, results must be independent maps; 32 goroutines match one shared pattern object under -race with results compared to the sequential ones.",
+         "Relies on Go's small-map iteration being a rotation of insertion order; race detector sees only interleavings that occurred.", "DESIGN.md §4 C03"),
 }
 
 NOT_YET = "check not built yet in this session (planned: see DESIGN.md §4)"
